@@ -680,7 +680,14 @@ pub fn check_c14(prog: &NetProgram, res: &NetResult, info: &mut RunInfo) {
                         }
                     }
                 }
-                Ev::Beat { .. } | Ev::Start { .. } | Ev::End { .. } => saw_handler = true,
+                Ev::Beat { .. } | Ev::Start { .. } | Ev::End { .. } => {
+                    if saw_handler {
+                        info.violate(Violation::new("C14", "two-events-one-bracket", format!(
+                            "module {m}: a second module event ({:?}) runs inside the bracket opened at trace #{start_i} - every event gets its own event_start / event_end", r.ev)));
+                        return;
+                    }
+                    saw_handler = true;
+                }
                 _ => {}
             }
             handler_recs += 1;
